@@ -29,6 +29,7 @@ from hypothesis import strategies as st
 
 from vt import engine
 from vt.engine import HarnessError, HypPart
+from vt import fresh
 from vt.gen import bit as GB
 from vt.gen import damage as DMG
 from vt.gen import dat as GD
@@ -151,6 +152,17 @@ def directories(draw, converter, tier):
     plant = ()
     for k in range(n_valid):
         src = draw(small_sources(converter, plant if k and draw(st.booleans()) else ()))
+        if converter == 'BIT' and k and draw(st.booleans()):
+            # a second BIT file with the channels of the first one in another order (same names, same count, other positions)
+            first = files[0]['src']['passes'][0]
+            p0 = dict(src['passes'][0])
+            n_ = len(first['channels'])
+            if n_ >= 2 and len(p0['channels']) >= 1:
+                rot = 1 + draw(st.integers(0, n_ - 2))
+                p0['channels'] = list(first['channels'][rot:]) + list(first['channels'][:rot])
+                p0['data'] = [list(p0['data'][i % len(p0['data'])]) for i in range(n_)]
+                p0['filler'] = first['filler']
+                src = dict(src, passes=[p0] + list(src['passes'][1:]), permuted_of_first=True)
         files.append({'kind': 'valid', 'fmt': converter, 'src': src, 'damage': None, 'raw': None})
         if converter == 'RP66V1' and not plant:
             plant = tuple(rp66_index_names(src))
@@ -220,7 +232,8 @@ def directories(draw, converter, tier):
     jobs = list(JOBS) if tier == 'thorough' else sorted(draw(st.lists(st.sampled_from(JOBS), min_size=2, max_size=2, unique=True)))
     # channel request: empty, or plain channel names of the valid files (the index channels are never asked for)
     channels = []
-    if draw(st.integers(0, 2)) == 0:
+    permuted = any(f['kind'] == 'valid' and f['src'].get('permuted_of_first') for f in files)
+    if draw(st.integers(0, 2)) == 0 or (permuted and draw(st.booleans())):
         mask = draw(st.integers(1, 255))
         for f in files:
             if f['kind'] == 'valid':
@@ -229,6 +242,11 @@ def directories(draw, converter, tier):
                     for k, nm in enumerate(raw):
                         if k and (mask >> (k % 7)) & 1 and nm not in channels and nm.encode() not in plant:
                             channels.append(nm)
+        if permuted and draw(st.booleans()):
+            # some, not all, of the channels that the files have in common
+            common = list(files[0]['src']['passes'][0]['channels'])
+            if len(common) >= 2:
+                channels = draw(st.lists(st.sampled_from(common), min_size=1, max_size=len(common) - 1, unique=True))
         if not channels:
             channels = ['NOSUCH']
     return {'converter': converter, 'files': files, 'jobs': jobs, 'channels': channels, 'recurse': recurse,
@@ -383,6 +401,8 @@ def check(case, cc):
     cc.cls('jobs>1', any(j > 1 for j in case['jobs']))
     cc.cls('jobs>files', any(j > len(files) for j in case['jobs']))
     cc.cls('channel-request', bool(case['channels']))
+    cc.cls('same-channels-other-order-with-request', bool(case['channels']) and case['channels'] != ['NOSUCH'] and any(
+        f['kind'] == 'valid' and f['src'].get('permuted_of_first') for f in files))
     cc.cls('stem-shared-by-two-inputs', len(set(os.path.splitext(n)[0] for n in names)) < len(names))
     for f in files:
         if f['kind'] == 'damaged':
@@ -444,6 +464,24 @@ def check(case, cc):
             solo_res[i] = res[paths[i]]
             solo_why[i] = c11.failure_signature(cap) if res[paths[i]].exception else None
             solo_trees[i] = read_tree(own)
+        # ---- (a') the valid files once more, each in a process that has never converted anything (vt/fresh.py): what a
+        # conversion writes must not depend on what the process converted before it
+        n_fresh = 0
+        for i in by_name:
+            if kinds[i] != 'valid' or i not in solo_trees or n_fresh >= 3:
+                continue
+            n_fresh += 1
+            own = os.path.join(tmp, 'fresh_%d' % i)
+            status = fresh.convert(conv, paths[i], os.path.join(own, names[i]), case['reduction'], case['channels'], tail[0], tail[1])
+            cc.cls('fresh-process:' + status)
+            if status != 'ok':
+                continue
+            ftree = read_tree(own)
+            if ftree != solo_trees[i]:
+                bad_ = sorted(k for k in set(ftree) | set(solo_trees[i]) if ftree.get(k) != solo_trees[i].get(k))
+                dev(O_TREE, 'conversion-differs-from-the-same-conversion-in-a-process-that-converted-nothing-before',
+                    '%s: %r converted on its own in a fresh process and on its own in this process (after other conversions): '
+                    'outputs %r differ%s' % (what, names[i], bad_[:4], first_diff({k: ftree.get(k, b'') for k in bad_}, {k: solo_trees[i].get(k, b'') for k in bad_}, bad_)))
         union = {}
         collide = set()
         for i in by_name:
@@ -603,3 +641,4 @@ def parts(tier):
 
 
 RULE += '  Added after the seeding rounds: sub-directories up to three levels with recursive and non-recursive walks, names beginning with a dot, an input whose name begins with the whole name of a bad input.'
+RULE += '  Every valid file is also converted in a child of a process that never converted anything (vt/fresh.py) and the trees compared; BIT directories hold files with the same channels in another order and a request for some of them.'
